@@ -173,6 +173,9 @@ func (s *Server) Run(addr string, opt ...Option) error {
 		connID++
 		select {
 		case <-s.shutdownCtx.Done():
+			// Stop may have run before the listener existed and so could not
+			// close it: release the port before returning
+			_ = s.listener.Close()
 			return nil
 		default:
 			// need a default to fall through to rest of loop...
